@@ -4303,8 +4303,12 @@ impl ZonedRound {
         let start = zdt.start_of_day().with_context(move || {
             err!("failed to find start of day for {zdt}")
         })?;
+        // The end of this day is the start of the next civil day. That is
+        // not necessarily `start + 1 day`: when this day starts after a gap
+        // at midnight (e.g., at 01:00), the next one still starts at 00:00.
         let end = start
             .checked_add(Span::new().days_ranged(C(1).rinto()))
+            .and_then(|zdt| zdt.start_of_day())
             .with_context(|| {
                 err!("failed to add 1 day to {start} to find length of day")
             })?;
